@@ -9,7 +9,7 @@ from pwv.core import Result, lib
 ID = 'C03'
 RULE = ('Hypothesis draws (biort in 4 documented names, qshift in 5 documented names + qshift_32, J in 1..5, '
         'H and W independently from {2..9} + {4k-1,4k,4k+1,4k+2} + {8k+r} <= 40, N, C in 1..3, dtype, content '
-        'recipe). Oracle: dtcwt.numpy.Transform2d.forward per (n,c) slice in float64: full operator on basis '
+        'recipe; filters as names or arrays; a module with a past; for the dense input also an output layout (o_dim, ri_dim) from all 132 integer pairs incl. negative aliases, compared after moving the two axes back). Oracle: dtcwt.numpy.Transform2d.forward per (n,c) slice in float64: full operator on basis '
         'images when H*W <= 192, dense inputs always; shapes must follow the reference pyramid. Non-trivial = '
         'J>=2 with an odd or pad-to-4 size, or a non-default filter pair. Distinct = configuration without seeds.')
 ASSUMPTIONS = ['the NumPy dtcwt 0.14 package is the reference', 'linearity (C07) extends basis agreement to all inputs',
@@ -26,6 +26,11 @@ def plan(tier):
     return units
 
 
+# output layouts for the dense comparison: every ordered pair of distinct axis positions, written with non-negative
+# or negative integers (the reference comparison is made after moving the two axes back)
+LAYOUT_POOL = [(o, ri) for o in range(-6, 6) for ri in range(-6, 6) if o % 6 != ri % 6]
+
+
 @st.composite
 def _case(draw, unit):
     b, q = (unit['biort'], unit['qshift']) if unit.get('biort') else draw(dtu.pair_strategy())
@@ -40,6 +45,7 @@ def _case(draw, unit):
             'dtype': draw(st.sampled_from(['f64', 'f64', 'f64', 'f32'])),
             'filt_form': draw(st.sampled_from(['names', 'names', 'names', 'tuples'])),
             'reused': draw(st.integers(0, 2)) == 0,
+            'layout': list(draw(st.sampled_from([(2, -1)] * 5 + LAYOUT_POOL))),
             'rx': draw(core.recipe_strategy()), 'k': draw(st.integers(0, 10**6))}
 
 
@@ -112,10 +118,34 @@ def run_case(case):
     x = core.make(case['rx'], [N, C, H, W])
     if f32:
         x = x.astype(np.float32).astype(np.float64)
-    ok, out = lib(fwd, torch.tensor(x, dtype=tdt))
+    o_dim, ri_dim = case.get('layout', [2, -1])
+    fwd_d = fwd
+
+    def to_default(hs):
+        rest = [d for d in range(6) if d not in (o_dim % 6, ri_dim % 6)]
+        return [h.permute(rest[0], rest[1], o_dim % 6, rest[2], rest[3], ri_dim % 6) if h.dim() == 6 else h for h in hs]
+    if (o_dim, ri_dim) != (2, -1):
+        # the documented layout options only say where the orientation and the real/imaginary axes go
+        r.label('nondefault_layout', 'negative_o_dim' if o_dim < 0 else None)
+        with dwtu.default_dtype(tdt):
+            ok, fwd_d = lib(lambda: DTCWTForward(biort=fb, qshift=fq, J=J, o_dim=o_dim, ri_dim=ri_dim))
+        if not ok:
+            return r.fail(fwd_d.bucket, 'constructing DTCWTForward(o_dim=%d, ri_dim=%d) raised: %s' % (o_dim, ri_dim, fwd_d))
+    ok, out = lib(fwd_d, torch.tensor(x, dtype=tdt))
     if not ok:
         return r.fail(out.bucket, 'forward raised on dense input: %s' % out)
     yl, yh = out
+    if (o_dim, ri_dim) != (2, -1):
+        exp6 = None
+        for h in yh:
+            rest = [d for d in range(6) if d not in (o_dim % 6, ri_dim % 6)]
+            if h.dim() != 6 or h.shape[o_dim % 6] != 6 or h.shape[ri_dim % 6] != 2 or \
+                    tuple(h.shape[d] for d in rest[:2]) != (N, C):
+                exp6 = tuple(h.shape)
+        if exp6 is not None:
+            return r.fail('layout_shape', 'a highpass has shape %s for o_dim=%d, ri_dim=%d (orientations / real-imag / '
+                          'batch / channel are not where the options put them)' % (exp6, o_dim, ri_dim))
+        yh = to_default(yh)
     for t in [yl] + list(yh):
         if t.dtype != tdt:
             return r.fail('dtype', 'output dtype %s for %s input' % (t.dtype, tdt))
@@ -132,10 +162,10 @@ def run_case(case):
     if not okc:
         r.fail('dense', 'DTCWT of a dense input differs from the reference: ' + core.first_mismatch(got, want, tol))
     # the same call while autograd is recording must give the same numbers
-    ok, out3 = lib(fwd, torch.tensor(x, dtype=tdt).requires_grad_(True))
+    ok, out3 = lib(fwd_d, torch.tensor(x, dtype=tdt).requires_grad_(True))
     if not ok:
         return r.fail(out3.bucket, 'forward raised when the input requires grad: %s' % out3)
-    got3 = dtu.lib_flat(*out3)
+    got3 = dtu.lib_flat(out3[0], to_default(out3[1]))
     if got3.shape != got.shape or not core.close(got3, got, (4 * core.EPS32 if f32 else 1e-13) * max(g * core.maxabs(x), 1e-300))[0]:
         r.fail('depends_on_autograd_recording', 'coefficients differ between a plain call and a call whose input requires grad')
     return r
